@@ -22,7 +22,7 @@ EXHAUSTIVE_SUBDOMAINS = ["every NL band 1..59 x hemisphere x parity x {airborne,
 ASSUMPTIONS = ["reference latitude clamped to [-90,90], reference longitude wrapped to [-180,180)",
                "box shrunk by two quantisation steps so that float round-off cannot move a reference outside it"]
 REQUIRED = ["airborne", "surface", "parity0", "parity1", "ni_le_0", "ni_gt_0", "ref_across_equator", "ref_across_antimeridian",
-            "ref_across_greenwich", "corner", "routing_checked"] + \
+            "ref_across_greenwich", "corner", "routing_checked", "ref_lat_exactly_zero", "ref_lon_exactly_zero"] + \
            ["band%d_%s" % (nl, s) for nl in range(1, 60) for s in ("air", "sfc")]
 
 
@@ -50,6 +50,15 @@ def m_ref(ctx, case):
         hx = dlon / 2 - 2 * slon
         rlat_ref = max(-90.0, min(90.0, lat + fy * hy))
         rlon_ref = cprgen.wrap180(lon + fx * hx)
+        if case.get("zref"):
+            # a receiver exactly on the equator and / or on the Greenwich meridian: 0.0 (or int 0) is a value, not "missing"
+            z = 0 if case["zref"].endswith("i") else 0.0
+            if "a" in case["zref"] and abs(lat) <= hy:
+                rlat_ref = z
+                ctx.hit("ref_lat_exactly_zero")
+            if "o" in case["zref"] and cpr.lon_diff(0.0, lon) <= hx:
+                rlon_ref = z
+                ctx.hit("ref_lon_exactly_zero")
         if case.get("intref"):
             # receivers are commonly configured with whole degrees: Python ints, when they still lie inside the box
             ci, cj = int(round(rlat_ref)), int(round(rlon_ref))
@@ -144,6 +153,15 @@ def cases(ctx):
                         if ctx.mine(i):
                             yield "ref", mkcase(drng, lat0, lon0, par, sfc, offs=[[oy, ox], [-oy * 0.5, -ox]])
                         i += 1
+    for k in range(ctx.share(4000 if quick else 40000)):
+        zr = rng.choice(("a", "o", "ao", "ai", "oi", "aoi"))
+        lat = rng.uniform(-0.7, 0.7) if "a" in zr else cprgen.rand_sphere_lat(rng)
+        lon = rng.uniform(-0.7, 0.7) if "o" in zr else rng.uniform(-180, 180)
+        if abs(lat) > 86.5:
+            continue
+        c = mkcase(rng, lat, lon)
+        c["zref"] = zr
+        yield "ref", c
     n = ctx.share(500000 if quick else 12000000)
     dl = cprgen.directed_lats(rng, n // 2 + 1)
     for k in range(n):
